@@ -1507,6 +1507,9 @@ func (v *VMValue) ComputedExecute(ctx *Context, detail *BufferSpan) *VMValue {
 	} else {
 		vm.code = cd.code
 		vm.codeIndex = cd.codeIndex
+		// 预编译的代码没有经过Parse，但部分指令(如 push.def_expr)需要读取源文本，这里补一个parser避免空指针
+		vm.parser = &parser{data: []byte(cd.Expr)}
+		vm.parser.pt.offset = len(vm.parser.data)
 		vm.evaluate()
 	}
 
@@ -1591,6 +1594,9 @@ func (v *VMValue) FuncInvokeRaw(ctx *Context, params []*VMValue, useUpCtxLocal b
 	} else {
 		vm.code = cd.code
 		vm.codeIndex = cd.codeIndex
+		// 预编译的代码没有经过Parse，但部分指令(如 push.def_expr)需要读取源文本，这里补一个parser避免空指针
+		vm.parser = &parser{data: []byte(cd.Expr)}
+		vm.parser.pt.offset = len(vm.parser.data)
 		vm.evaluate()
 	}
 
